@@ -39,16 +39,37 @@ META = {
 CA = "tx3_tir::model::assets::CanonicalAssets"
 
 
+def _in_assets_module(f):
+    """model/assets.rs or one of its private submodules"""
+    return f["file"].endswith("model/assets.rs") or "/model/assets/" in f["file"]
+
+
+def _impl_of(F, trait, name):
+    """the method `name` of CanonicalAssets' impl of `trait`, wherever in the module tree the impl block sits"""
+    for g in F.fns.values():
+        if g.get("impl_trait") == trait and g.get("impl_self") == CA and g.get("name") == name and not g.get("derived"):
+            return g
+    return None
+
+
+def _asset_helpers(t, callee):
+    return callee["crate"] == "tx3_tir" and _in_assets_module(callee) and not callee.get("impl_trait") and len(callee["blocks"]) <= 100
+
+
 def i_normal(F, res):
     n = 0
-    for f in F.fns.values():
-        if f["crate"] != "tx3_tir" or is_derive(f):
+    for f0 in F.fns.values():
+        if f0["crate"] != "tx3_tir" or is_derive(f0):
             continue
+        if not any(s["rv"]["k"] == "agg" and s["rv"].get("adt") == CA for _, _, s in mir.stmts(f0)):
+            continue
+        # the module's own helpers (`prune_zeroes(map)`) inlined: a retain inside them dominates the construction
+        f = mir.inline_calls(F, f0, want=_asset_helpers, depth=2)
         du = None
         cfg = None
         for bi, si, s in mir.stmts(f):
             rv = s["rv"]
-            if rv["k"] != "agg" or rv.get("adt") != CA or site_in_derive(s["exp"]):
+            if rv["k"] != "agg" or rv.get("adt") != CA or site_in_derive(s["exp"]) or f["blocks"][bi].get("inl"):
                 continue
             n += 1
             du = du or mir.DefUse(f)
@@ -149,7 +170,7 @@ def i_private(F, res):
     else:
         res.add([ok("I-PRIVATE", key2, w, "Deref only (no DerefMut / AsMut / BorrowMut impl)")])
     # no aggregate outside the defining module
-    outside = [f["path"] for f in F.fns.values() if not is_derive(f) and not f["file"].endswith("model/assets.rs")
+    outside = [f["path"] for f in F.fns.values() if not is_derive(f) and not _in_assets_module(f)
                for bi, si, s in mir.stmts(f) if s["rv"]["k"] == "agg" and s["rv"].get("adt") == CA]
     key3 = CA + "|constructed only in assets.rs"
     if outside:
@@ -412,7 +433,7 @@ def i_pointwise(F, res):
     decided (assumption), never reported."""
     OPS = {"std::ops::Add": ("add", ("Add", "AddWithOverflow"), "+"), "std::ops::Sub": ("sub", ("Sub", "SubWithOverflow"), "-")}
     for tr, (meth, binops, sym) in OPS.items():
-        f0 = F.fns.get("<%s as %s>::%s" % (CA, tr, meth))
+        f0 = _impl_of(F, tr, meth)
         key = "%s|%s is entry-wise %s" % (CA, meth, sym)
         if f0 is None:
             res.add([finding("I-POINTWISE", key, "crates/tx3-tir/src/model/assets.rs", "CanonicalAssets does not implement %s" % tr)])
@@ -497,7 +518,7 @@ def i_pointwise(F, res):
         else:
             res.add([finding("I-POINTWISE", key, where(f0, st["line"]), "%s computes `%s %s %s`: the operands are swapped (a - b becomes b - a)" % (meth, ra, sym, rb))])
     # Neg: every amount is replaced by its negation, nothing else is computed
-    f0 = F.fns.get("<%s as std::ops::Neg>::neg" % CA)
+    f0 = _impl_of(F, "std::ops::Neg", "neg")
     key = "%s|neg negates every amount" % CA
     if f0 is None:
         res.add([finding("I-POINTWISE", key, "crates/tx3-tir/src/model/assets.rs", "CanonicalAssets does not implement Neg")])
@@ -539,7 +560,7 @@ def order_home(F, res):
     n = 0
     bad = []
     for p, f in sorted(F.fns.items()):
-        if not f["crate"].startswith("tx3") or f.get("derived") or f["file"].endswith("model/assets.rs") or f["def_kind"] == "Closure":
+        if not f["crate"].startswith("tx3") or f.get("derived") or _in_assets_module(f) or f["def_kind"] == "Closure":
             continue
         sites = []
         for b in with_closures(F, f):
